@@ -303,7 +303,7 @@ def check_duplicates(case, ctx):
     nd_r = [n for n in case["reac"] if n not in dups]
     nd_p = [n for n in case["prod"] if n not in dups]
     ok = (set(rk) <= set(case["reac"]) and set(pk) <= set(case["prod"]) and set(nd_r) <= set(rk)
-          and set(nd_p) <= set(pk) and not (set(rk) & set(pk)) and rk and pk)
+          and set(nd_p) <= set(pk) and not (set(rk) & set(pk)))     # a side may end up empty (ions cancelling)
     if not ok:
         ctx.fail("keys_not_a_placement_of_the_species_given", got=[sorted(map(str, rk)), sorted(map(str, pk))],
                  given=[case["reac"], case["prod"]])
